@@ -57,10 +57,14 @@ def decorate(rng, doc):
         if rng.random() < 0.3 and t["kind"] not in ("abstime", "reltime"):
             t["unit"] = rng.choice(["V", "deg C", "s"])
         if t["kind"] == "abstime":
-            # time types express their calibration as Encoding scale/offset: a polynomial [offset, scale] (the writer refuses others)
+            # time types express a first-order calibration as Encoding scale/offset; polynomials that are not [scale] or
+            # [offset, scale] (a constant, higher orders) must survive as well (the writer refuses splines)
             t["enc"]["context"] = None
             t["enc"]["default"] = rng.choice([None, ["poly", [[docs.fnum(-2.5), 0], [docs.fnum(0.001), 1]]], ["poly", [[docs.fnum(1e-6), 1]]],
-                                              ["poly", [[docs.fnum(100.0), 0], [docs.fnum(1.0), 1]]]])
+                                              ["poly", [[docs.fnum(100.0), 0], [docs.fnum(1.0), 1]]],
+                                              ["poly", [[docs.fnum(5.0), 0]]], ["poly", [[docs.fnum(-0.5), 0]]], ["poly", [[docs.fnum(0.25), 2]]],
+                                              ["poly", [[docs.fnum(1.0), 0], [docs.fnum(2.0), 1], [docs.fnum(0.5), 2]]],
+                                              ["poly", [[docs.fnum(3.0), 1], [docs.fnum(0.125), 3]]]])
             t.update(kind=rng.choice(["abstime", "reltime"]), unit=rng.choice([None, "s", "ms"]), epoch=rng.choice([None, "TAI", "2000-01-01T00:00:00"]),
                      offset_from=rng.choice([None, "SRC_SEQ_CTR"]))
         if t["kind"] == "enum" and rng.random() < 0.3:
